@@ -30,6 +30,12 @@ Ok(m) == m.err.kind = ""
 Raise(m, kind, line) == IF Ok(m) THEN [m EXCEPT !.err = [kind |-> kind, line |-> line]] ELSE m
 R(m, v) == [m |-> m, v |-> v]
 Ev(m, e) == IF m.tr THEN [m EXCEPT !.ev = Append(@, e)] ELSE m
+(* one unit of forward progress (a call instruction or the end of a loop iteration).  `tkfail` is
+   the tick at which the periodic check fires and fails (0: never) -- see Limits.tla *)
+Tick(m, line) ==
+    IF ~Ok(m) THEN m
+    ELSE LET m1 == [m EXCEPT !.tk = @ + 1] IN
+         IF m1.tk = m.tkfail THEN Raise(m1, m.tkkind, line) ELSE m1
 Alloc(m, o) == [m |-> [m EXCEPT !.heap = Append(@, o)], a |-> Len(m.heap) + 1]
 NewList(m, items) ==
     LET x == Alloc(m, [kind |-> "list", items |-> items, locks |-> 0, frozen |-> FALSE])
@@ -267,7 +273,7 @@ Bind(params, defaults, pos, named, m) ==
    that the keys of a ** mapping and of **kwargs are ordinary strings of the language. *)
 
 (* ------------------------------------------------------------------ the interpreter *)
-RECURSIVE E(_, _, _), EvalSeq(_, _, _, _, _), X(_, _, _), ExecB(_, _, _, _), CallV(_, _, _, _, _),
+RECURSIVE E(_, _, _), EvalSeq(_, _, _, _, _), X(_, _, _), ExecB(_, _, _, _), CallV(_, _, _, _, _, _),
           CallFn(_, _, _, _, _), Loop(_, _, _, _, _, _, _), Assign(_, _, _, _, _),
           AssignSeq(_, _, _, _, _, _), Clauses(_, _, _, _, _, _, _), ClauseLoop(_, _, _, _, _, _, _, _, _, _),
           EvalNamed(_, _, _, _, _), CallBuiltin(_, _, _, _, _), CallMethod(_, _, _, _, _, _),
@@ -370,12 +376,14 @@ E(e, env, m) ==
               IN IF ~si.ok \/ ~dOk THEN R(Raise(ss.m, "type", e.line), NoneV)
                  ELSE LET extra == IF Absent(e.starstar) THEN <<>>
                                    ELSE [q \in 1..Len(h[ss.v.a].keys) |-> <<h[ss.v.a].keys[q].s, h[ss.v.a].vals[q]>>]
-                      IN CallV(f.v, a.vs \o si.items, n.vs \o extra, ss.m, e.line))
+                      IN CallV(f.v, a.vs \o si.items, n.vs \o extra, ss.m, e.line, TRUE))
     ELSE IF e.k = "mcall" THEN
         (LET o == E(e.obj, env, m)
              a == EvalSeq(e.args, 1, env, o.m, <<>>)
              n == EvalNamed(e.named, 1, env, a.m, <<>>) IN
-         IF ~Ok(n.m) THEN R(n.m, NoneV) ELSE CallMethod(o.v, e.name, a.vs, n.vs, n.m, e.line))
+         IF ~Ok(n.m) THEN R(n.m, NoneV)
+         ELSE IF n.m.depth + 1 >= n.m.cap THEN R(Raise(n.m, "depth", e.line), NoneV)
+         ELSE CallMethod(o.v, e.name, a.vs, n.vs, n.m, e.line))
     ELSE R(Raise(m, "spec_domain", e.line), NoneV)
 
 (* comprehension clauses.  e: the comprehension node; ci: index of the clause being run;
@@ -406,7 +414,9 @@ ClauseLoop(e, ci, tg, la, items, j, env, m, ks, vs) ==
     ELSE LET a1 == Assign(tg, items[j], env, m, e.line)
              r == Clauses(e, ci + 1, NoneV, env, a1, ks, vs) IN
          IF ~Ok(r.m) THEN [m |-> Unlock(r.m, la, "error"), ks |-> r.ks, vs |-> r.vs]
-         ELSE ClauseLoop(e, ci, tg, la, items, j + 1, env, Ev(r.m, [e |-> "backedge", a |-> 0, why |-> ""]), r.ks, r.vs)
+         ELSE LET t == Tick(r.m, e.line) IN
+              IF ~Ok(t) THEN [m |-> Unlock(t, la, "error"), ks |-> r.ks, vs |-> r.vs]
+              ELSE ClauseLoop(e, ci, tg, la, items, j + 1, env, Ev(t, [e |-> "backedge", a |-> 0, why |-> ""]), r.ks, r.vs)
 
 (* ---- assignment to a target ---- *)
 AssignSeq(tgs, vals, i, env, m, line) ==
@@ -435,9 +445,12 @@ Assign(tg, v, env, m, line) ==
     ELSE Raise(m, "spec_domain", line)
 
 (* ---- calls ---- *)
-CallV(f, pos, named, m, line) ==
+(* tick: TRUE for a call instruction of the program, FALSE for a call made by native code *)
+CallV(f, pos, named, m0, line, tick) ==
+    LET m == IF tick /\ (f.t = "bi" \/ IsFn(f, m0.heap)) THEN Tick(m0, line) ELSE m0 IN
     IF ~Ok(m) THEN R(m, NoneV)
-    ELSE IF f.t = "bi" THEN CallBuiltin(f.name, pos, named, m, line)
+    ELSE IF f.t = "bi" THEN
+        (IF m.depth + 1 >= m.cap THEN R(Raise(m, "depth", line), NoneV) ELSE CallBuiltin(f.name, pos, named, m, line))
     ELSE IF f.t = "bm" THEN CallMethod(f.self, f.name, pos, named, m, line)
     ELSE IF IsFn(f, m.heap) THEN CallFn(f.a, pos, named, m, line)
     ELSE R(Raise(m, "type", line), NoneV)
@@ -452,7 +465,8 @@ CallFn(fa, pos, named, m, line) ==
              extra == IF fn.lam THEN <<>>
                       ELSE SetToSeq(AssignedS(fn.body, 1) \ {pn[i] : i \in 1..Len(pn)})
              fr == NewFrame(b.m, pn \o extra, b.vals \o [i \in 1..Len(extra) |-> UnboundV])
-             m1 == Ev([fr.m EXCEPT !.depth = @ + 1], [e |-> "call", a |-> m.depth + 1, why |-> fn.name])
+             m1 == Ev([fr.m EXCEPT !.depth = @ + 1, !.maxd = IF m.depth + 1 > @ THEN m.depth + 1 ELSE @],
+                      [e |-> "call", a |-> m.depth + 1, why |-> fn.name])
              env1 == <<fr.a>> \o fn.env IN
          IF fn.lam THEN
             (LET r == E(fn.body, env1, m1) IN
@@ -478,7 +492,9 @@ Loop(tg, la, items, j, body, env, m) ==
          IF ~Ok(r.m) THEN Flow(Unlock(r.m, la, "error"), "next", NoneV)       \* the property's rule
          ELSE IF r.f = "break" THEN Flow(Unlock(r.m, la, "break"), "next", NoneV)
          ELSE IF r.f = "return" THEN Flow(Unlock(r.m, la, "return"), "return", r.v)
-         ELSE Loop(tg, la, items, j + 1, body, env, Ev(r.m, [e |-> "backedge", a |-> 0, why |-> ""]))
+         ELSE LET t == Tick(r.m, tg.line) IN
+              IF ~Ok(t) THEN Flow(Unlock(t, la, "error"), "next", NoneV)
+              ELSE Loop(tg, la, items, j + 1, body, env, Ev(t, [e |-> "backedge", a |-> 0, why |-> ""]))
 
 AugOp(op) == op     \* "+", "-", "*", "//", "%"
 
@@ -558,14 +574,16 @@ NamedOnly(named, allowed) == \A q \in 1..Len(named) : named[q][1] \in allowed
 (* apply f to each item, left to right: returns [m, vs] *)
 MapCall(f, items, i, m, line, acc) ==
     IF i > Len(items) \/ ~Ok(m) THEN [m |-> m, vs |-> acc]
-    ELSE LET x == CallV(f, <<items[i]>>, <<>>, m, line) IN MapCall(f, items, i + 1, x.m, line, Append(acc, x.v))
+    ELSE LET x == CallV(f, <<items[i]>>, <<>>, m, line, FALSE) IN MapCall(f, items, i + 1, x.m, line, Append(acc, x.v))
 
 (* the key function runs WHILE the argument is being iterated: the container is locked during
    those calls and released afterwards, also when a call fails *)
 KeysUnderLock(keyf, items, la, m, line) ==
     IF keyf.t = "none" THEN [m |-> m, vs |-> items]
-    ELSE LET r == MapCall(keyf, items, 1, Lock(m, la), line, <<>>) IN
-         [m |-> Unlock(r.m, la, IF Ok(r.m) THEN "exhausted" ELSE "error"), vs |-> r.vs]
+    ELSE LET m1 == [Lock(m, la) EXCEPT !.depth = @ + 1]            \* the builtin's own frame
+             r == MapCall(keyf, items, 1, m1, line, <<>>)
+             m2 == IF Ok(r.m) THEN [r.m EXCEPT !.depth = @ - 1] ELSE r.m IN
+         [m |-> Unlock(m2, la, IF Ok(r.m) THEN "exhausted" ELSE "error"), vs |-> r.vs]
 
 SortWithKey(items, la, keyf, rev, m, line) ==
     LET ks == KeysUnderLock(keyf, items, la, m, line) IN
@@ -821,7 +839,7 @@ CallMethod(o, name, pos, named, m, line) ==
 
 (* ------------------------------------------------------------------ running a module *)
 M0(cap, tr) == [heap |-> <<>>, out |-> <<>>, err |-> [kind |-> "", line |-> 0], ev |-> <<>>,
-                depth |-> 0, cap |-> cap, tr |-> tr]
+                depth |-> 0, cap |-> cap, tr |-> tr, tk |-> 0, tkfail |-> 0, tkkind |-> "ticks", maxd |-> 0]
 
 (* the module frame declares every name assigned anywhere at module level *)
 RunModule(stmts, cap, tr) ==
